@@ -1,5 +1,11 @@
 import LC.Props.C03Lines
+import LC.Props.C03WF
 #print axioms LC.V2Tok.token_lines_bounded
 #print axioms LC.V2Tok.copyright_lines_bounded
 #print axioms LC.V2Tok.token_lines_monotone
 #print axioms LC.V2Tok.totalInputLines_le
+#print axioms LC.V2Match.match_wellformed
+#print axioms LC.V2Match.match_sorted
+#print axioms LC.V2Match.match_total_lines
+#print axioms LC.V2Match.match_no_panic
+#print axioms LC.V2Match.prepare_wf
